@@ -100,6 +100,34 @@ fn main() {
                     Err(e) => json!({"e":"wincase","id":v["id"],"argv":v["argv"],"ok":false,"out":[],"errno":e.raw_os_error().unwrap_or(0)}),
                 }
             }
+            "winenv" => {
+                // the environment block for CreateProcessW, from the function extracted from the source
+                // (either signature: Vec<u16>, or io::Result<Vec<u16>> once NUL is refused)
+                trait IntoBlock {
+                    fn into_block(self) -> Result<Vec<u16>, i32>;
+                }
+                impl IntoBlock for Vec<u16> {
+                    fn into_block(self) -> Result<Vec<u16>, i32> {
+                        Ok(self)
+                    }
+                }
+                impl IntoBlock for std::io::Result<Vec<u16>> {
+                    fn into_block(self) -> Result<Vec<u16>, i32> {
+                        self.map_err(|e| e.raw_os_error().unwrap_or(-1))
+                    }
+                }
+                if !winshim::EXTRACTED {
+                    eprintln!("quote_replay: the Windows functions could not be extracted from /repo/src/popen.rs");
+                    std::process::exit(2);
+                }
+                let units = |a: &Value| winshim::OsString(a.as_array().unwrap().iter().map(|u| u.as_u64().unwrap() as u16).collect());
+                let env: Vec<(winshim::OsString, winshim::OsString)> =
+                    v["env"].as_array().unwrap().iter().map(|kv| (units(&kv[0]), units(&kv[1]))).collect();
+                match winshim::format_env_block(&env).into_block() {
+                    Ok(b) => json!({"e":"winenv","id":v["id"],"env":v["env"],"ok":true,"block":b,"errno":0}),
+                    Err(e) => json!({"e":"winenv","id":v["id"],"env":v["env"],"ok":false,"block":[],"errno":e}),
+                }
+            }
             x => panic!("bad kind {}", x),
         };
         outf.write_all(ev.to_string().as_bytes()).unwrap();
